@@ -144,7 +144,7 @@ func TestWorker(t *testing.T) {
 				last, lastChange = n, time.Now()
 				continue
 			}
-			if time.Since(lastChange) > 20*time.Second {
+			if time.Since(lastChange) > 30*time.Second {
 				res.Hang = &core.HangInfo{Label: label, Config: curCfg, Seed: curSeed}
 				res.WallS = time.Since(start).Seconds()
 				writeOut(out, res, sigs)
@@ -379,7 +379,7 @@ func TestRaceLeg(t *testing.T) {
 	start := time.Now()
 	done, tasks, ops := uint64(0), 0, 0
 	for i := from; i < from+n && time.Since(start) < budget; i++ {
-		m, nt, no := scen.RaceWorkload(seed, i)
+		m, nt, no := scen.RaceWorkload(seed, i, os.Getenv("VERIF_RACE_COLD") != "" && i == from)
 		done++
 		tasks += nt
 		ops += no
